@@ -313,6 +313,13 @@ class Gen:
                 pass
             elif cmd == "root":
                 self.root = toks[0]
+                if self.root.startswith("glob:"):
+                    import glob as _g
+                    hits = sorted(_g.glob(os.path.expanduser(self.root[5:])))
+                    if not hits:
+                        raise Undecided(f"dependency source not found: {self.root}")
+                    self.root = hits[0]
+                    self.log.append(f"note: dependency source root {self.root}")
             elif cmd == "tags":
                 self.tags = [t for t in toks]
             elif cmd == "assume":
